@@ -84,7 +84,7 @@ func (t *TrafBox) ParseReadSenc(defaultIVSize byte, moofStartPos uint64) error {
 	} else {
 		senc = t.UUIDSenc.Senc
 	}
-	if t.Saio != nil {
+	if t.Saio != nil && len(t.Saio.Offset) > 0 {
 		// saio should be present, but we try without it, if it doesn't exist
 		posFromSaio := t.Saio.Offset[0] + int64(moofStartPos)
 		if uint64(posFromSaio) != senc.StartPos+16 {
@@ -105,8 +105,14 @@ func (t *TrafBox) ParseReadSenc(defaultIVSize byte, moofStartPos uint64) error {
 		if sgpdEntryNr != sbgpInsideOffset+1 {
 			return fmt.Errorf("sgpd entry number must be first inside = 65536 + 1")
 		}
+		if len(sgpd.SampleGroupEntries) == 0 {
+			return fmt.Errorf("sgpd has no seig entry")
+		}
 		sgpdEntry := sgpd.SampleGroupEntries[sgpdEntryNr-sbgpInsideOffset-1]
-		seigEntry := sgpdEntry.(*SeigSampleGroupEntry)
+		seigEntry, ok := sgpdEntry.(*SeigSampleGroupEntry)
+		if !ok {
+			return fmt.Errorf("sgpd entry is not a seig entry")
+		}
 		perSampleIVSize = seigEntry.PerSampleIVSize
 	}
 	err := senc.ParseReadBox(perSampleIVSize, t.Saiz)
